@@ -12,6 +12,21 @@ from props import reader_common as rc
 
 MODULES = ['FeVerif.Props.C10']
 
+# Largest P1 time a message can carry (seconds field 0xFFFFFFFE; all-ones means "no time").
+T_MAX = float(0xFFFFFFFE) + 0.75
+# Base P1 time of a generated log, by magnitude: a freshly booted device (the values every repository test uses), then the places
+# where an intermediate representation narrower than a double / a 32-bit unsigned second count would lose whole seconds:
+# float32 mantissa (2^24, 2^25, 2^26), signed 32-bit (2^31), typical GPS-time-of-epoch values (1.2e9 .. 1.5e9), the top of the
+# 32-bit seconds field. All multiples of 0.25 s below 2^32, hence exact doubles.
+T0_POOL = {
+    'boot': [0.0, 1.0, 2.5, 10.0, 100.25],
+    'days': [86400.0 * 3 + 0.5, 1e6, 1e7 + 0.25],
+    '2^24': [2.0 ** 24 + d for d in (-40, -3, -1, 0, 1, 2.25, 1000)] + [2.0 ** 25 - 2, 2.0 ** 25 + 1, 2.0 ** 26 + 3, 1e8 + 1],
+    'gps': [1.2e9 + 7, 1261872018.0, 1.4e9 + 0.5, 1443657600.0 + 17, 1.5e9 + 3.75],
+    '2^31': [2.0 ** 31 + d for d in (-50, -2, -1, 0, 1.5, 1001)] + [3e9 + 1],
+    'top': [float(0xFFFFFFFE) - d for d in (0, 1, 3, 40, 200, 5000.5)],
+}
+
 
 def read_filtered(path, types, tr, sources, max_bytes, flags, require_p1=False, style=0):
     """style: how the caller spells the same request (enum list / payload classes / single value; read_next loop / iteration)."""
@@ -78,12 +93,20 @@ def make_range(rng, msgs):
     from fusion_engine_client.utils.time_range import TimeRange
     from fusion_engine_client.messages import Timestamp
     ts = [m['timeNs'] for m in msgs if m['timeNs'] is not None]
-    lo = (min(ts) / rc.NS) if ts else 1.0
+    lo = (min(ts) / rc.NS) if ts else 1.0       # multiples of 0.25 s below 2^32: exact
     hi = (max(ts) / rc.NS) if ts else 5.0
     kind = rng.choice(['abs', 'abs', 'rel', 'rel', 'rel-t0'])
     grid = [None, 0.0, 0.25, 1.0, 1.5, 2.0, 3.0, 7.75, hi - lo, hi - lo + 0.25, hi - lo + 5, 1000.0]
     if kind == 'abs':
         grid = [None, lo - 1 if lo >= 1 else 0.0, lo, lo + 0.25, lo + 1, lo + 1.5, (lo + hi) / 2 // 0.25 * 0.25, hi, hi + 0.25, hi + 3, hi + 1000]
+    # whole-second bounds at, just before and just after the (floored) time of some message of the log - wherever it lies in the
+    # log and whatever the magnitude of its time: the place where "exact for whole seconds" is decided
+    origin = 0 if kind == 'abs' else int(lo)
+    near = [float(max(0, t // rc.NS + d - origin)) for t in rng.sample(ts, min(len(ts), 2)) for d in (-1, 0, 1, 2)]
+    if near and rng.random() < 0.3:
+        grid = near + [None]
+    else:
+        grid = grid + near
     s = rng.choice(grid)
     e = rng.choice(grid + [float('inf')])
     if s is not None and e is not None and e < s:
@@ -125,7 +148,7 @@ def intent_text(trd):
         return '-'
 
     def f(x):
-        return 'n' if x is None else str(int(round(x * rc.NS)))
+        return 'n' if x is None else str(rc.to_ns(x, exact=True))
     s, e = trd['start'], trd['end']
     if e is not None and e == float('inf'):
         e = None
@@ -158,7 +181,7 @@ def one_case(ctx, data, path, msgs, lines, pending, flags=None, fixed=None):
     require_p1 = False      # read_next(require_p1_time=...) is not one of the property's criteria (a NaN P1 time counts as present there)
     style = (fixed or {}).get('style', rng.randrange(6) + 6 * rng.choice([0, 0, 0, 1, 2]))
     res = read_filtered(path, types, tr, sources, max_bytes, flags, require_p1, style)
-    rt = rc.range_text(tr)                 # what the constructed TimeRange object says (input of the literal model)
+    rt = rc.range_text(tr, exact=True)     # what the constructed TimeRange object says (input of the literal model)
     it = intent_text(trd)                  # what was asked for (input of the specification)
     fmt = '%s %s %%s %s %s' % (rc.log_text(msgs), '-' if types is None else ','.join(map(str, types)),
                                '-' if sources is None else ','.join(map(str, sources)), 'n' if max_bytes is None else max_bytes)
@@ -279,16 +302,22 @@ def run(ctx, budget):
         if 'file' in r and 'types' in r:
             data = bytes.fromhex(r['file'])
             path = ic.write_log(data, 'c10_corpus_%d.p1log' % k)
-            one_case(ctx, data, path, rc.unfiltered(path), lines, pending, fixed=r)
+            one_case(ctx, data, path, rc.unfiltered(path, exact=True), lines, pending, fixed=r)
             ctx.count('corpus_cases')
     for _ in range(budget):
         srcs = rng.choice([(0,), (0, 1), (0, 1, 5)])
-        data = rc.make_log(rng, rng.choice([0, 1, 3, 6, 10, 16, 30]), sources=srcs, untimed_first=rng.choice([None, None, 2]))
+        mag = rng.choice(['boot', 'boot', 'boot', 'days', '2^24', '2^24', 'gps', 'gps', '2^31', 'top'])
+        base = rng.choice(T0_POOL[mag])
+        ctx.count('logs_with_base_time_' + mag)
+        data = rc.make_log(rng, rng.choice([0, 1, 3, 6, 10, 16, 30]), sources=srcs, untimed_first=rng.choice([None, None, 2]),
+                           t_start=base, t_max=T_MAX)
         if rng.random() < 0.15:    # a source id that first appears after the 10th message of its type
-            data += rc.make_log(rng, 25, sources=(0,), t_start=200.0) + rc.make_log(rng, 5, sources=(9,), t_start=300.0)
+            later_t = 200.0 if mag == 'boot' else base + 200.0
+            data += rc.make_log(rng, 25, sources=(0,), t_start=min(later_t, T_MAX), t_max=T_MAX) + \
+                rc.make_log(rng, 5, sources=(9,), t_start=min(later_t + 100.0, T_MAX), t_max=T_MAX)
         path = ic.write_log(data)
         try:
-            msgs = rc.unfiltered(path)
+            msgs = rc.unfiltered(path, exact=True)
         except BaseException as e:
             ctx.violation('C10/unfiltered-read-raised', '%s: %s' % (type(e).__name__, e), {'file': data.hex()})
             continue
@@ -345,9 +374,12 @@ def check(ctx):
     ctx.cov['rule'] = ('generated logs (P1-timed messages of two classes with non-decreasing quarter-second times, timed classes with '
                        'invalid time, untimed classes, unknown types, junk, 1-3 source ids incl. one first used after the 10th message '
                        'of its type) x type subsets x absolute/relative/preset-t0 ranges with open/closed, integral/fractional ends '
-                       'inside, at the edges of and outside the log x source sets x max_bytes at boundaries x return_* flags (random + '
+                       'inside, at the edges of and outside the log and whole-second ends at/around message times; base P1 time of '
+                       'the log from a pool of magnitudes (boot, days, 2^24.., GPS-like 1.2e9-1.5e9, 2^31, top of the 32-bit seconds '
+                       'field) x source sets x max_bytes at boundaries x return_* flags (random + '
                        'all 32 combinations); non-trivial = non-empty log; distinct = distinct model request')
-    ctx.assumptions += ['times in generated logs are multiples of 0.25 s, so float arithmetic (t0 + relative bound, floor) is exact',
+    ctx.assumptions += ['times in generated logs are multiples of 0.25 s below 2^32, so double arithmetic (t0 + relative bound, floor) is '
+                        'exact; seconds -> nanoseconds for model and spec by rational arithmetic',
                         'the unfiltered read of the real reader defines the log handed to model and spec']
     ctx.prove(MODULES)
     try:
@@ -365,7 +397,7 @@ def replay(ctx, path):
     data = bytes.fromhex(r['file'])
     p = ic.write_log(data)
     lines, pending = [], []
-    one_case(ctx, data, p, rc.unfiltered(p), lines, pending, fixed=r)
+    one_case(ctx, data, p, rc.unfiltered(p, exact=True), lines, pending, fixed=r)
     outs = ctx.driver(lines)
     judge(ctx, *pending[0], outs[0], outs[1])
     return fv.finish(ctx, 'proof', None)
